@@ -37,6 +37,22 @@ def scripts(rnd, ntables, types):
         yield rebased(sc + ops, rnd)
 
 
+def noread_tables(rnd):
+    """areas without a read function (register-less, so that nothing but block reads goes there): they read as zero, flagged readable or not"""
+    out = []
+    for be in (0, 1):
+        for rd in (0, 1):
+            areas = [area(2, 3), area(5, 2, rd=rd, kind=3), area(7, 2)]
+            regs = [reg(U16, 2, 0, 0, 0, 0x1111), reg(U32, 3, 0, 0, 0, 0x22223333), reg(U16, 7, 0, 0, 0, 0x4444)]
+            sc = [tinit(be, areas, regs)]
+            sc += ['bwrite 5 2 43981 4660'] if rd else []
+            for addr in range(1, 10):
+                for n in range(0, 8):
+                    sc.append('bread %d %d' % (addr, n))
+            out.append(sc)
+    return out
+
+
 def big_table(rnd):
     """a table with more registers than a 16-bit handle can name (built inside the harness): reads and ranges around handle 2^16"""
     sc = []
@@ -65,6 +81,7 @@ def run(tier):
         ss += list(scripts(rnd, 36 if quick else 200, [U16, U32, U64, F32, S16] if quick else list(range(8))))
     vf.trace_flow(v, 'RegTableTrace.tla', 'RegTableTrace.cfg', 'regtab', ss, 'br')
     vf.trace_flow(v, 'RegTableTrace.tla', 'RegTableTraceBig.cfg', 'regtab', big_table(rnd), 'brbig')
+    vf.trace_flow(v, 'RegTableTrace.tla', 'RegTableTrace.cfg', 'regtab', noread_tables(rnd), 'brnr')
     v.cov['distinct_nontrivial'] += len(set((i, l) for i, s in enumerate(ss) for l in s if l.startswith(('bread', 'foreach'))))
     v.notes['tables'] = len(ss)
     v.cov['rule'] = ('seeded family of well-formed tables; for each, every (address, length 0..9) block read and iteration range, iteration also with callback scripts; '
